@@ -118,6 +118,9 @@ impl TryFrom<DateTime<Nanosecond>> for CrDateTime<Utc> {
     type Error = TError;
     #[inline]
     fn try_from(dt: DateTime<Nanosecond>) -> TResult<Self> {
+        if dt.is_nat() {
+            tbail!("Failed to convert DateTime<Nanosecond> to CrDateTime")
+        }
         Ok(CrDateTime::from_timestamp_nanos(dt.0))
     }
 }
